@@ -245,6 +245,10 @@ pub struct Party {
     pub former: Vec<(u64, VGroup)>,
     /// outstanding key packages (message) not yet consumed
     pub key_packages: Vec<MlsMessage>,
+    /// encoded key package messages that carry the last-resort extension
+    pub last_resort_kps: BTreeSet<Vec<u8>>,
+    /// whether the key package this party joined with last was a last-resort one
+    pub joined_with_last_resort: bool,
     pub rules: DefaultMlsRules,
 }
 
@@ -397,6 +401,8 @@ pub struct World {
     pub keep_exts: Vec<Extension>,
     /// chance that a new party's identity provider also supports the custom credential type
     pub p_custom_cred: (u32, u32),
+    /// chance that a generated key package is marked last-resort
+    pub p_last_resort: (u32, u32),
 }
 
 pub struct CommitResult {
@@ -427,6 +433,7 @@ impl World {
             rejoined_same_storage: BTreeSet::new(),
             keep_exts: vec![],
             p_custom_cred: (0, 1),
+            p_last_resort: (0, 1),
         }
     }
 
@@ -510,6 +517,8 @@ impl World {
             joined_epoch: 0,
             former: vec![],
             key_packages: vec![],
+            last_resort_kps: BTreeSet::new(),
+            joined_with_last_resort: false,
             rules,
         });
         id
@@ -569,10 +578,20 @@ impl World {
     }
 
     pub fn key_package(&mut self, c: usize) -> Result<MlsMessage, String> {
+        let last_resort = self.p_last_resort.0 > 0 && self.rng.chance(self.p_last_resort.0, self.p_last_resort.1);
+        let mut kp_ext = ExtensionList::new();
+        if last_resort {
+            kp_ext
+                .set_from(mls_rs::extension::recommended::LastResortKeyPackageExt)
+                .map_err(|e| format!("{e:?}"))?;
+        }
         let kp = self.parties[c]
             .client
-            .generate_key_package_message(Default::default(), Default::default(), None)
+            .generate_key_package_message(kp_ext, Default::default(), None)
             .map_err(|e| format!("generate_key_package: {e:?}"))?;
+        if last_resort {
+            self.parties[c].last_resort_kps.insert(kp.to_bytes().unwrap_or_default());
+        }
         self.parties[c].key_packages.push(kp.clone());
         Ok(kp)
     }
